@@ -3,7 +3,7 @@ import json, os, glob
 from harness import common
 from harness.common import coq_list, coq_Z
 
-REQ = ["Verif.lib.PyLite", "Verif.gen.ReachGen", "Verif.lib.Reach"]
+REQ = ["Verif.lib.PyLite", "Verif.gen.ReachGen", "Verif.gen.ReachDispGen", "Verif.lib.Reach", "Verif.lib.ReachDeep"]
 
 DATA_TYPES = ["list", "tuple", "dict", "set", "immutable-set", "none"]
 BAD_TYPES = ["instance", "class", "module", "function", "method", "call", "answer", "vocab", "x", "remote_hi", "List"]
@@ -13,6 +13,10 @@ BROKER_EXTRA = ["shutdown", "finish", "setTub", "remote_decref", "connectionLost
                 "abandonAllRequests", "getMyReferenceByCLID", "dataReceived", "send", ""]
 COPY_NAMES = ["my.rc1", "my.rc2", "my.rc3", "os.system", "builtins.object", "", "my.rc", "harness.c06_impl.RC1"]
 PUB_NAMES = ["pub", "pub2", "hub", "", "p/q"]
+# method names that try to WALK from an exposed method to something else (attribute paths, format directives, separators)
+WALKS = ["hi.__self__.secret", "hi.__self__._private", "hi.__self__.hi", "hi.__self__.__call__", "hi.__call__", "hi.__func__",
+         "hi.__self__", "hi.__self__.cb_a", "x.__self__.secret", "hi.__self__.__class__", "hi.__self__.remote_hi", "%s", "hi%s", "{0}",
+         "hi\x00", "hi/../secret", "hi:secret", "hi secret", "hi,secret", "hi\nsecret", "hi.", ".hi", "hi..secret", "remote_hi.__self__.secret"]
 
 
 def B(s):
@@ -49,6 +53,22 @@ def carg(a):
     if k == "O":
         return "(AOpen %s)" % cstr(a[1])
     raise ValueError(a)
+
+
+def cxarg(a):
+    if a[0] == "M":
+        return "(XMyRef %s)" % coq_Z(a[1])
+    if a[0] == "T":
+        return "(XTheirRef %s UForeign %s)" % (coq_Z(a[1]), "true" if a[2] else "false")
+    return "(XA %s)" % carg(a)
+
+
+def cxev(ev):
+    """an event of the extended model: calls to application objects carry arbitrary arguments (XMsg), everything else is
+    an event of the core model"""
+    if ev[0] == "Msg" and ev[3] != 0:
+        return "(XMsg C%s %s %s %s %s)" % (ev[1], coq_Z(ev[2]), coq_Z(ev[3]), cmname(ev[4]), coq_list(ev[5], cxarg))
+    return "(XE %s)" % cev(ev)
 
 
 def cev(ev):
@@ -102,13 +122,19 @@ Definition enc_out (o : outcome) : Z * Z * list N :=
   end.
 Definition cidz (c : cid) : Z := match c with CA => 0 | CB => 1 end.
 Definition enc_conn (c : conn) := (c_alive c, c_exports c, c_next c).
-Definition obs (st : state) (r : result) :=
+Definition enc_val (v : argval) : Z * Z :=
+  match v with VData => (0, 0) | VBrokerSelf => (1, 0) | VLocal o => (2, o) | VCopy c => (3, c) | VProxy k => (4, k) | VGift => (5, 0) end.
+(* the machine below is xstep: calls to application objects run the dispatcher assembled from the TRANSLATED source
+   (gen/ReachDispGen.v), with reference arguments; all other events run step_T (translated remote_decref inside) *)
+Definition obs (x : xstate) (y : xresult) :=
+  let st := xs_core x in let r := xr_core y in
   (enc_out (r_out r), r_inst r, map (fun x => (cidz (fst (fst x)), snd (fst x), snd x)) (r_sent r),
-   enc_conn (s_a st), enc_conn (s_b st), Z.of_nat (List.length (s_n2r st))).
-Fixpoint trace (w : world) (st : state) (h : list event) :=
-  match h with [] => [] | e :: r => let '(st1, x) := step w st e in obs st1 x :: trace w st1 r end.
-Definition final (w : world) (h : list event) :=
-  let st := fst (run w init h) in
+   enc_conn (s_a st), enc_conn (s_b st), Z.of_nat (List.length (s_n2r st)),
+   (map enc_val (xr_argv y), xs_yours_a x, xs_yours_b x, map fst (xr_dial y))).
+Fixpoint trace (w : world) (x : xstate) (h : list xevent) :=
+  match h with [] => [] | e :: r => let '(x1, y) := xstep w x e in obs x1 y :: trace w x1 r end.
+Definition final (w : world) (ag : bool) (h : list xevent) :=
+  let st := xs_core (fst (xrun w (xinit ag) h)) in
   (map (fun x => (sb (fst x), snd x)) (s_n2r st), map (fun x => (fst x, sb (snd x))) (s_r2n st),
    map (fun x => sb (fst x)) (s_copy st), map (fun x => (fst x, map sb (snd x))) (s_decl st)).
 """
@@ -228,7 +254,7 @@ class Gen:
                 return ["Msg", c, rq, 0, B("decgift"), [["I", self.pick([1, 2])], ["I", 1]], self.r.random() < 0.3]
             m = self.pick(["getReferenceByName", "decref", "decgift"] + BROKER_EXTRA + METHODS[:6])
             return ["Msg", c, rq, 0, B(m), self.args(c, snap, seen, copyreg)]
-        m = B(self.pick(METHODS))
+        m = B(self.pick(METHODS if self.r.random() < 0.8 else WALKS))
         if clid in snap[c] and clid > 0 and snap[c][clid][0] in impl_world() and self.r.random() < 0.45:
             # a method the target really exposes
             wd = impl_world()[snap[c][clid][0]]
@@ -236,7 +262,20 @@ class Gen:
             m = B(self.pick(good))
         if self.r.random() < 0.02:
             m = [0xc3, 0x28]
-        return ["Msg", c, rq, clid, m, self.args(c, snap, seen, copyreg)]
+        args = self.args(c, snap, seen, copyreg)
+        if self.r.random() < 0.35:
+            # reference arguments: the peer's own objects (my-reference, any integer id, also ids equal to ids of OUR tables)
+            # and gifts (their-reference) whose dial succeeds or fails
+            for _ in range(self.pick([1, 1, 2])):
+                if self.r.random() < 0.6:
+                    ids = [2, 3, 5, -2, -4, 7, 2 ** 40] + [k for k in sorted(snap[c]) if k != 1]
+                    ref = ["M", self.pick(ids)]
+                else:
+                    ref = ["T", self.pick([1, 2, 3, 0]), self.r.random() < 0.7]
+                if ref[0] == "T" and any(a[0] == "T" and a[1] == ref[1] for a in args):
+                    continue
+                args.insert(self.r.randrange(len(args) + 1), ref)
+        return ["Msg", c, rq, clid, m, args]
 
 
 def sysm_handler_names():
@@ -279,6 +318,7 @@ class Oracle:
         snap = o["snap"]
         prev = self.prev
         self.prev = snap
+        self.held_before = {}
         if o["exc"]:
             fail("exception-escaped", "an exception escaped the transport-facing call", o["exc"][-800:])
         c = ev[1] if kind in ("Grant", "Msg", "Top", "Drop") else None
@@ -337,7 +377,18 @@ class Oracle:
                 fail("entered-without-message", "application code entered / class instantiated by a local event %r: %r %r" % (ev, ent, o["inst"]))
             return
         # ---- an inbound message
-        unchanged = prev is not None and all(prev[k] == snap[k] for k in prev)
+        unchanged = prev is not None and all(prev[k] == snap[k] for k in prev if k not in ("yoursA", "yoursB"))
+        # the proxy tables (Broker.yourReferenceByCLID): the other connection's is never touched; this connection's grows by the
+        # my-reference ids of this very message (or is emptied with the connection)
+        if prev is not None and c:
+            oc_ = "B" if c == "A" else "A"
+            if prev["yours" + oc_] != snap["yours" + oc_]:
+                fail("other-proxy-table-changed", "a message on %s changed the proxy table of %s: %r -> %r"
+                     % (c, oc_, prev["yours" + oc_], snap["yours" + oc_]))
+            mine = set(a[1] for a in ev[5] if a[0] == "M") if kind == "Msg" else set()
+            if snap["alive" + c] and not (set(prev["yours" + c]) <= set(snap["yours" + c]) <= set(prev["yours" + c]) | mine):
+                fail("unjustified-proxy", "a message on %s with my-references %r changed its proxy table %r -> %r"
+                     % (c, sorted(mine), prev["yours" + c], snap["yours" + c]))
         if len(ent) > 1:
             fail("several-entries", "one message entered %r" % (ent,))
         if kind == "Top" and (ent or o["inst"]):
@@ -378,6 +429,49 @@ class Oracle:
                         why = "callable %r entered through clid %r (held on %s: %r)" % (e[1], clid, c, self.held[c])
                 if why:
                     fail("unjustified-entry", why)
+            # what the entered code was handed, position by position
+            if ent and o.get("argv") is not None and clid != 0:
+                if len(o["argv"]) != len(args):
+                    fail("argument-count", "the entered method received %d positional values for %d arguments" % (len(o["argv"]), len(args)))
+                for a, v in zip(args, o["argv"]):
+                    why = None
+                    if v[0] == "local":
+                        h = self.held[c].get(a[1]) if a[0] == "Y" else None
+                        if a[0] != "Y" or a[1] <= 0 or not h or h[0] != v[1]:
+                            why = "the local object %r was handed to the entered method for argument %r (held on %s: %r)" % (v[1], a, c, self.held[c])
+                    elif v[0] == "broker":
+                        if a[0] != "Y" or a[1] != 0 or v[1:] != [c]:
+                            why = "a Broker %r was handed to the entered method for argument %r on %s" % (v[1:], a, c)
+                    elif v[0] == "proxy":
+                        if a[0] != "M" or v[1:] != [c, a[1]]:
+                            why = "a RemoteReference %r was handed to the entered method for argument %r on %s" % (v[1:], a, c)
+                    elif v[0] == "copy":
+                        if a[0] != "C" or self.copyreg.get(a[1]) != v[1]:
+                            why = "an instance of class %r was handed to the entered method for argument %r" % (v[1], a)
+                    elif v[0] == "gift":
+                        if a[0] != "T":
+                            why = "a dialled reference was handed to the entered method for argument %r" % (a,)
+                    elif a[0] in ("Y", "M", "T", "C"):
+                        why = "argument %r arrived as plain data %r" % (a, v)
+                    if why:
+                        fail("unjustified-argument", why)
+            # gifts: the Tub dials only when gifts are accepted, only what this message names; nothing is entered unless every
+            # gift was accepted and resolved
+            gifts = [a for a in args if a[0] == "T"]
+            if o.get("dials"):
+                if not impl_accepts_gifts(o) or any(g not in [a[1] for a in gifts] for g in o["dials"]):
+                    fail("unjustified-dial", "the Tub dialled %r for arguments %r (gifts accepted: %r)" % (o["dials"], args, impl_accepts_gifts(o)))
+            if ent and clid != 0 and gifts and (not impl_accepts_gifts(o) or not all(a[2] for a in gifts)):
+                fail("gift-gate", "a call with an unaccepted / unresolved gift %r entered %r" % (gifts, ent))
+            # "every other object id fails that request without side effects": a call addressed to an id this peer does not hold
+            # (never granted, released, another connection's, negated) must be refused before ANY of its arguments is looked at
+            h_ = self.held[c].get(clid)
+            if clid != 0 and (not h_ or h_[1] <= 0) and prev is not None and snap["alive" + c]:
+                done = dict(instantiated=list(o["inst"]), dialled=list(o.get("dials") or []),
+                            proxies=sorted(set(snap["yours" + c]) - set(prev["yours" + c])))
+                if any(done.values()):
+                    fail("unheld-id-processed-arguments", "a call to id %r, which this peer does not hold on %s (held: %r), was refused only "
+                         "after its arguments had been unsliced: %r" % (clid, c, sorted(self.held[c]), done))
             # classes
             allowed = [self.copyreg[a[1]] for a in args if a[0] == "C" and a[1] in self.copyreg]
             for cls in o["inst"]:
@@ -396,6 +490,18 @@ class Oracle:
                     h[1] -= n
                     if h[1] == 0:
                         del self.held[c][k]
+        # ---- "every other ... method name ... fails that request": a method name that is not UTF-8 is just another unknown name
+        if kind == "Msg" and o["out"] == "Aborted" and prev is not None:
+            try:
+                bytes(ev[4]).decode("utf-8")
+                undecodable = False
+            except UnicodeDecodeError:
+                undecodable = True
+            h_ = self.held_before.get(ev[3]) if ev[3] != 0 else True
+            bad_yourref = any(a[0] == "Y" and (a[1] < 0 or (a[1] != 0 and a[1] not in prev[c])) for a in ev[5])
+            if undecodable and (ev[3] == 0 or (ev[3] > 0 and ev[3] in prev[c])) and not bad_yourref:
+                fail("undecodable-name-dropped-connection", "a call to the held id %r with a method name that is not UTF-8 (%r) did "
+                     "not fail on its own: the connection %s was dropped (table before: %r)" % (ev[3], ev[4], c, prev[c]))
         # ---- refusals have no side effects
         if o["out"] in ("Reject", "Dead") and not unchanged:
             fail("refusal-changed-tables", "%s changed the tables: before %r after %r" % (o["out"], prev, snap))
@@ -409,6 +515,10 @@ class Oracle:
             fail("plain-call-changed-tables", "a call to an application object changed the tables: before %r after %r" % (prev, snap))
 
 
+def impl_accepts_gifts(o):
+    return o.get("accept_gifts", True)
+
+
 _world = None
 
 
@@ -416,10 +526,17 @@ def impl_world():
     return _world
 
 
-def run_history(ctx, impl, events=None, n=25, gen=None):
-    """execute a given history, or generate one of n events on the fly; -> (events, observations, failures)"""
+def run_history(ctx, impl, events=None, n=25, gen=None, accept_gifts=None):
+    """execute a given history, or generate one of n events on the fly; -> (events, observations, failures).
+    A history may start with ["Config", accept_gifts] (Tub option accept-gifts; default True); it is kept as the first
+    event of the returned list (with a dummy observation) so that replays reproduce it."""
     global _world
-    sysm = impl.System()
+    if events is not None and events and events[0][0] == "Config":
+        accept_gifts = bool(events[0][1])
+        events = events[1:]
+    if accept_gifts is None:
+        accept_gifts = True if gen is None else gen.r.random() < 0.8
+    sysm = impl.System(accept_gifts=accept_gifts)
     if _world is None:
         _world = impl.world_description(sysm)
     orc = Oracle(impl)
@@ -447,6 +564,7 @@ def run_history(ctx, impl, events=None, n=25, gen=None):
                 ev = gen.event(sysm, snap, seen, req, orc.copyreg, i, touched)
             i += 1
             o = sysm.do(ev)
+            o["accept_gifts"] = accept_gifts
             if ev[0] == "Register":
                 r2 = sysm.rnames()
                 o["regname"] = r2.get(ev[2])       # the name part of the FURL registerReference returned
@@ -468,6 +586,12 @@ def run_history(ctx, impl, events=None, n=25, gen=None):
         from foolscap import copyable
         final["copy"] = sorted(copyable.CopyableRegistry.keys())
         sysm.close()
+    final["accept_gifts"] = accept_gifts
+    if not accept_gifts:
+        # replays must reproduce the option
+        evs.insert(0, ["Config", False])
+        obs.insert(0, None)
+        fails = [(sig, what, idx + 1, extra) for sig, what, idx, extra in fails]
     return evs, obs, final, fails
 
 
@@ -490,16 +614,28 @@ def expected_obs(o, ev):
         for clid, url in o["sent"][c]:
             sent.append((ci, clid, o["snap"][c].get(clid, ("?",))[0]))
     s = o["snap"]
+    code_v = dict(data=0, broker=1, local=2, copy=3, proxy=4, gift=5)
+    argv = None
+    if ev[0] == "Msg" and ev[3] != 0:
+        if out[0] in (2, 3) and o.get("argv") is not None:
+            argv = [(code_v[v[0]], v[-1] if v[0] in ("local", "copy", "proxy") else 0) for v in o["argv"]]
+        elif out[0] not in (2, 3):
+            argv = []
     return dict(out=out, inst=list(o["inst"]), sent=sorted(sent),
-                A=(s["aliveA"], s["A"], s["nextA"]), B=(s["aliveB"], s["B"], s["nextB"]), nn=len(s["names"]))
+                A=(s["aliveA"], s["A"], s["nextA"]), B=(s["aliveB"], s["B"], s["nextB"]), nn=len(s["names"]),
+                argv=argv, yoursA=s["yoursA"], yoursB=s["yoursB"], dials=sorted(o.get("dials", [])))
 
 
-def model_obs(v):
-    o1, o2, o3, inst, sent, ca, cb, nn = v     # Coq prints left-nested pairs flat
+def model_obs(v, exp=None):
+    o1, o2, o3, inst, sent, ca, cb, nn, ext = v     # Coq prints left-nested pairs flat
+    argv, ya, yb, dial = ext
     out = (o1, o2, o3)
     conv = lambda c: (c[0], {k: tuple(x) for k, x in c[1]}, c[2])
-    return dict(out=(out[0], out[1], list(out[2])), inst=list(inst), sent=sorted(tuple(x) for x in sent),
-                A=conv(ca), B=conv(cb), nn=nn)
+    d = dict(out=(out[0], out[1], list(out[2])), inst=list(inst), sent=sorted(tuple(x) for x in sent),
+             A=conv(ca), B=conv(cb), nn=nn, argv=[tuple(x) for x in argv], yoursA=sorted(ya), yoursB=sorted(yb), dials=sorted(dial))
+    if exp is not None and exp.get("argv") is None:
+        d["argv"] = None          # the values handed over are compared for calls to application objects only
+    return d
 
 
 def correspond(ctx, impl, hists, tag):
@@ -507,10 +643,12 @@ def correspond(ctx, impl, hists, tag):
     if not hists:
         return
     body = [PRELUDE, cworld(impl_world(), impl.HANDLER_NAMES)]
+    hists = [([e for e in evs if e[0] != "Config"], [o for o in obs if o is not None], final) for evs, obs, final in hists]
     for i, (evs, obs, final) in enumerate(hists):
-        body.append("Definition h%d : list event := %s." % (i, coq_list(evs, cev)))
-        body.append("Eval vm_compute in trace W init h%d." % i)
-        body.append("Eval vm_compute in final W h%d." % i)
+        ag = "true" if final.get("accept_gifts", True) else "false"
+        body.append("Definition h%d : list xevent := %s." % (i, coq_list(evs, cxev)))
+        body.append("Eval vm_compute in trace W (xinit %s) h%d." % (ag, i))
+        body.append("Eval vm_compute in final W %s h%d." % (ag, i))
     try:
         vals = ctx.coq_eval("C06_%s" % tag, "\n".join(body), requires=REQ)
     except common.CoqEvalError as e:
@@ -525,7 +663,8 @@ def correspond(ctx, impl, hists, tag):
             bad = ("length", len(tr), len(evs))
         else:
             for j, (ev, o, v) in enumerate(zip(evs, obs, tr)):
-                exp, got = expected_obs(o, ev), model_obs(v)
+                exp = expected_obs(o, ev)
+                got = model_obs(v, exp)
                 if exp != got:
                     diff = {k: (got[k], exp[k]) for k in exp if exp[k] != got[k]}
                     bad = dict(step=j, event=ev, model_vs_impl=diff)
@@ -634,6 +773,143 @@ def unguessable_names(ctx, impl):
                  "process-wide, non-cryptographic `random` generator" % name, replay=dict(name=name))
 
 
+def reference_argument_family():
+    """deterministic sweep (fixed witnesses, independent of the random stream): every kind of reference argument, alone and
+    mixed, to a Referenceable, an interface-bearing one and a callable; my-reference ids that collide with ids of OUR export
+    tables (own, other connection, stale, negative); gifts accepted / refused / unresolvable; a failing LATER argument"""
+    B_ = lambda t: list(t.encode())
+    hs = []
+    for ag in (True, False):
+        for target in ("obj", "iface", "callable"):
+            h = [] if ag else [["Config", False]]
+            wid = dict(obj=1, iface=5, callable=7)[target]
+            h += [["Grant", "A", wid, ""], ["Grant", "A", 2, ""], ["Grant", "B", 3, ""], ["Grant", "B", 4, ""], ["Grant", "B", 9, ""],
+                  ["RegisterCopy", "my.rc1", 1]]
+            clid = -1 if target == "callable" else 1
+            req = 0
+            argsets = [[["M", 2]], [["M", 1]], [["M", -1]], [["M", 3]], [["M", 2 ** 40]], [["M", 2], ["M", 2]],
+                       [["Y", 2], ["M", 2]], [["M", 2], ["Y", 0]], [["T", 1, True]], [["T", 2, False]], [["T", 1, True], ["T", 2, False]],
+                       [["M", 5], ["T", 3, True], ["C", "my.rc1"], ["Y", 2]], [["M", 6], ["T", 1, True], ["C", "my.rc1"], ["O", "instance"]],
+                       [["M", 7], ["Y", 77]], [["C", "my.rc1"], ["M", 8], ["C", "nosuch"]]]
+            for args in argsets:
+                req += 1
+                h.append(["Msg", "A", req, clid, B_("hi"), args])
+                if args == [["M", 7], ["Y", 77]]:
+                    # the connection was dropped: what follows on it is dead, the other connection is untouched
+                    req += 1
+                    h.append(["Msg", "B", req, 1, B_("hi"), [["M", 2]]])
+                    break
+            hs.append(h)
+    return hs
+
+
+def unheld_id_family():
+    """fixed witnesses: calls to ids the peer does not hold -- never granted (positive, negative), released (positive, negative:
+    a bound method granted and released), the other connection's, the negation of a live one -- each with arguments whose
+    unslicing is observable (registered copyable, my-reference, gift)"""
+    B_ = lambda t: list(t.encode())
+    h = [["RegisterCopy", "my.rc1", 1], ["Grant", "A", 1, ""], ["Grant", "A", 7, ""], ["Grant", "A", 2, ""], ["Grant", "B", 3, ""],
+         ["Grant", "B", 8, ""], ["Grant", "B", 4, ""],
+         ["Msg", "A", 1, 0, B_("decref"), [["I", -2], ["I", 1]]],          # the bound method is released
+         ["Msg", "A", 2, 0, B_("decref"), [["I", 3], ["I", 1]]]]           # ... and object 2
+    req = 2
+    for clid in (-2, 3, -5, 99, -1, -3, 2 ** 40, -(2 ** 40)):
+        for args in ([["C", "my.rc1"]], [["M", 4]], [["T", 1, True]], [["I", 1], ["C", "my.rc1"], ["M", 6], ["T", 2, True]]):
+            req += 1
+            h.append(["Msg", "A", req, clid, B_("hi"), args])
+    return [h]
+
+
+def method_walk_family():
+    """fixed witnesses: every WALKS name against a Referenceable without a RemoteInterface (P1: remote_hi, remote_x; P2: many
+    odd remote_ attributes), an interface-bearing one and a callable"""
+    B_ = lambda t: list(t.encode("utf-8"))
+    h = [["Grant", "A", 1, ""], ["Grant", "A", 2, ""], ["Grant", "A", 5, ""], ["Grant", "A", 7, ""]]
+    req = 0
+    for clid in (1, 2, 3):
+        for m in WALKS:
+            req += 1
+            h.append(["Msg", "A", req, clid, B_(m), [["I", 1]] if req % 3 == 0 else []])
+    for m in WALKS[:6]:
+        req += 1
+        h.append(["Msg", "A", req, -4, B_(m), []])
+    return [h]
+
+
+REFUSED_EFFECTS_SIG = "oracle/refused-request-left-proxy-or-dial"
+
+
+def refused_effects_probe(ctx, impl):
+    """Replays the witness of C06_refusal_pure_full_refuted on the real code: a request that is REFUSED because of a later
+    argument has already created a proxy in its connection's yourReferenceByCLID, made the Tub dial the gift's URL and
+    instantiated a registered class.  Reported as a violation only once the lead has listed the signature in
+    known_findings.json (until then: a note and an evidence entry, so the clean tree stays exit 0)."""
+    B_ = lambda t: list(t.encode())
+    hist = [["Grant", "A", 1, ""], ["RegisterCopy", "my.rc1", 1],
+            ["Msg", "A", 1, 1, B_("hi"), [["M", 5], ["T", 1, True], ["C", "my.rc1"], ["O", "instance"]]]]
+    sysm = impl.System()
+    try:
+        for ev in hist:
+            ev = list(ev)
+            if ev[0] == "Grant":
+                ev[3] = sysm.next_swiss()
+            o = sysm.do(ev)
+    finally:
+        sysm.close()
+    left = dict(out=o["out"], proxies=o["snap"]["yoursA"], dials=o["dials"], instantiated=o["inst"])
+    ctx.extra["refused_request_effects"] = left
+    if o["out"] == "Reject" and (left["proxies"] or left["dials"] or left["instantiated"]):
+        what = ("a request refused because of a LATER argument (unknown OPEN type) had already %r; history %r" % (left, hist))
+        if ("C06", REFUSED_EFFECTS_SIG) in common.load_known():
+            ctx.fail(REFUSED_EFFECTS_SIG, what, replay=dict(history=hist, left=left))
+        else:
+            ctx.note("candidate finding (not listed in known_findings.json, so only noted): " + what[:400])
+    elif o["out"] != "Reject":
+        ctx.fail("oracle/refuted-witness-not-refused", "the witness of C06_refusal_pure_full_refuted was not refused: %r" % (left,),
+                 replay=dict(history=hist, left=left))
+
+
+YOURREF_DROP_SIG = "oracle/unknown-yourref-drops-connection"
+
+
+def unknown_yourref_probe(ctx, impl):
+    """Replays the witness of C06_unknown_yourref_drops_connection_refuted on the real code: a call to a HELD object whose only
+    fault is a your-reference ARGUMENT naming an id the connection's table does not hold.  The property says that request
+    fails; the code drops the whole connection (KeyError escapes YourReferenceUnslicer.receiveClose): the peer's other
+    references on it are lost and the request gets no error answer.  Reported as a violation only once the lead has listed
+    the signature in known_findings.json (until then: a note and an evidence entry, so the clean tree stays exit 0)."""
+    B_ = lambda t: list(t.encode())
+    hist = [["Grant", "A", 1, ""], ["Grant", "A", 2, ""], ["Msg", "A", 5, 1, B_("hi"), [["Y", 99]]], ["Msg", "A", 6, 2, B_("hi"), []]]
+    sysm = impl.System()
+    outs, before, after, answered = [], None, None, None
+    try:
+        for ev in hist:
+            ev = list(ev)
+            if ev[0] == "Grant":
+                ev[3] = sysm.next_swiss()
+            o = sysm.do(ev)
+            outs.append(o["out"])
+            if ev[0] == "Msg" and ev[2] == 5:
+                after, answered = o["snap"]["A"], o["answered"]["A"]
+            elif ev[0] == "Grant":
+                before = o["snap"]["A"]
+    finally:
+        sysm.close()
+    seen = dict(outcomes=outs, table_before=before, table_after=after, error_answer_sent=answered)
+    ctx.extra["unknown_yourref_argument"] = seen
+    if outs[2] == "Aborted":
+        what = ("a request whose only fault is a your-reference argument with an unknown id did not fail on its own: the whole "
+                "connection was dropped (the peer's %d other references lost, later request %r): %r; history %r"
+                % (len(before or {}), outs[3], seen, hist))
+        if ("C06", YOURREF_DROP_SIG) in common.load_known():
+            ctx.fail(YOURREF_DROP_SIG, what, replay=dict(history=hist, seen=seen))
+        else:
+            ctx.note("candidate finding (not listed in known_findings.json, so only noted): " + what[:500])
+    elif outs[2] != "Reject":
+        ctx.fail("oracle/refuted-witness-not-refused", "the witness of C06_unknown_yourref_drops_connection_refuted was neither "
+                 "refused nor dropped: %r" % (seen,), replay=dict(history=hist, seen=seen))
+
+
 REDECLARE_SIG = "oracle/interface-redeclared-after-use-ignored"
 
 
@@ -686,6 +962,16 @@ def shrink(ctx, impl, evs, sig):
 
 
 def run(ctx):
+    import gc
+    gc.disable()        # proxies created for my-reference arguments die in reference cycles: collect only between histories
+    try:
+        _run(ctx)
+    finally:
+        gc.enable()
+        gc.collect()
+
+
+def _run(ctx):
     ctx.rule = ("a case is one history of up to 25 (thorough: 40) events on one real Tub with two real Brokers: grants of 8 application "
                 "objects (plain, interface-bearing, bound methods), registrations, copyable registrations, and hand-built inbound "
                 "token sequences (call with live / other-connection / stale / 0 / negated / huge clids, 21 method names incl. dunder, "
@@ -694,9 +980,19 @@ def run(ctx):
                 "non-trivial = at least one message entered code, at least one was refused, and both connections were used")
     ctx.assumptions = [
         "the two Brokers are attached to the Tub directly (Broker(...).setTub(tub), sink transport): negotiation and TLS are not part of this property",
+        "automatic cyclic garbage collection is off during a history (collected between histories): the weakref finalizers of dead "
+        "RemoteReferences run at those points, not in the middle of a virtual-clock operation",
         "application objects stay alive for the whole history (the Tub's weak name table never loses an entry by garbage collection)",
         "application methods return plain data; a grant is the application calling a peer object with the Referenceable as argument",
-        "their-reference (gifts) and my-reference arguments are not generated: they create outbound state, not entries into local code",
+        "reference arguments: my-reference (the peer's own objects, any integer id incl. ids of OUR tables) and their-reference (gifts) "
+        "are generated and modelled (C06_delivered_values_justified, C06_gift_gate, ...); the Tub's dial (Tub.getReference) is replaced "
+        "per Tub instance by a stub that records the URL and succeeds / fails as the event says (no network here; what a dial does is "
+        "C05 / C14); a gift naming THIS Tub is modelled like any other dial (UOwn), not generated",
+        "the dispatcher of the model is assembled from Gallina terms translated statement by statement from getMyReferenceByCLID, "
+        "CallUnslicer.receiveChild stages 1-2, Broker._doCall, Referenceable.doRemoteCall, YourReferenceUnslicer.receiveClose, "
+        "Broker.remote_decref (translate/g_reachdisp.py); hand-modelled and tied by the correspondence only: the clid-0 path "
+        "(RIBroker schema), the mapping exception -> Reject / connection dropped, token-type checks (checkToken), truthiness of "
+        "application objects (assumed true), RemoteInterface schemas (unconstrained in the fixture; C02)",
         "Tub.generateSwissnumber is replaced per Tub instance by a counter so that model and implementation can be compared; "
         "unguessability: translated facts NAMEBITS = 160 and 'the name is base32 of os.urandom(bits//8)' (C06_swissnum_bits), plus a "
         "peer-side prediction attack on the real generator (MT19937 state recovery from 126 observed names) that must fail",
@@ -707,11 +1003,17 @@ def run(ctx):
     hists = []
 
     def account(evs, obs, final, fails, origin):
-        outs = [o["out"] for o in obs]
+        outs = [o["out"] for o in obs if o is not None]
         conns = set(e[1] for e in evs if e[0] in ("Msg", "Top"))
         ctx.case(["hist", evs], nontrivial=("Enter" in outs and "Reject" in outs and len(conns) == 2))
         for e, o in zip(evs, obs):
+            if o is None:
+                continue
             ctx.hist("event_kind", e[0])
+            if e[0] == "Msg":
+                for a in e[5]:
+                    if a[0] in ("M", "T"):
+                        ctx.hist("reference_argument", "%s/%s" % ("my-reference" if a[0] == "M" else "their-reference", o["out"]))
             if e[0] in ("Msg", "Top"):
                 ctx.hist("message_outcome", o["out"])
                 if e[0] == "Msg":
@@ -745,6 +1047,16 @@ def run(ctx):
         evs, obs, final, fails = run_history(ctx, impl, events=h)
         account(evs, obs, final, fails, "interface-order-%d" % i)
         ctx.hist("origin", "interface-order")
+    # 1c. deterministic sweep over reference arguments (my-reference / their-reference), gifts accepted and refused
+    for i, h in enumerate(reference_argument_family()):
+        evs, obs, final, fails = run_history(ctx, impl, events=h)
+        account(evs, obs, final, fails, "reference-arguments-%d" % i)
+        ctx.hist("origin", "reference-arguments")
+    for nm, fam_ in (("unheld-ids", unheld_id_family()), ("method-walk", method_walk_family())):
+        for i, h in enumerate(fam_):
+            evs, obs, final, fails = run_history(ctx, impl, events=h)
+            account(evs, obs, final, fails, "%s-%d" % (nm, i))
+            ctx.hist("origin", nm)
     # 2. generated histories on the real code, with the direct oracle
     g = Gen(ctx.rng)
     nh = ctx.n(120, 2500)
@@ -754,17 +1066,19 @@ def run(ctx):
         account(evs, obs, final, fails, "generated-%d" % i)
         ctx.hist("origin", "generated")
         if i < 2:
-            ctx.sample(dict(history=evs[:8], outcomes=[o["out"] for o in obs[:8]]))
+            ctx.sample(dict(history=evs[:8], outcomes=[o["out"] for o in obs[:8] if o is not None]))
     # 3. correspondence with the Coq model
     model_ok = ok
     if not ok:
-        model_ok, _ = ctx.coq_build(["lib/Reach.vo"])
+        model_ok, _ = ctx.coq_build(["lib/ReachDeep.vo"])
     if model_ok:
         shard = 60
         for k in range(0, len(hists), shard):
             correspond(ctx, impl, hists[k:k + shard], "cases_%d" % (k // shard))
         correspond_decref(ctx)
     redeclare_probe(ctx, impl)
+    refused_effects_probe(ctx, impl)
+    unknown_yourref_probe(ctx, impl)
     unguessable_names(ctx, impl)
     if not ok and len(ctx.failures) == before:
         ctx.fail("proof-broken", "theorem closure props/C06.vo no longer builds against the regenerated gen/ReachGen.v:\n" + log[-2500:],
